@@ -499,10 +499,20 @@ class NF:
         return Poly.atom(f"{type(op).__name__.lower()}({a.canon()}, {b.canon()})", d, g)
 
     def _project(self, p: Poly, path: tuple) -> Poly:
+        import re as _re
         for i in path:
             if p.elems is not None and isinstance(i, int) and i < len(p.elems):
                 p = p.elems[i]
-            else:
+                continue
+            ms_ = self.meta.get(p.single_atom() or "", {})
+            mm_ = _re.search(r"\[(\d*):(\d*)\]$", p.single_atom() or "")
+            if isinstance(i, int) and i >= 0 and ms_.get("fn") == "subscript" and mm_ and ms_.get("args"):
+                # (x[j:k])[i] == x[j + i] for constant bounds
+                lo_ = int(mm_.group(1) or 0)
+                if not mm_.group(2) or lo_ + i < int(mm_.group(2)):
+                    p = self._project(ms_["args"][0], (lo_ + i,))
+                    continue
+            if True:
                 base = p.single_atom()
                 name = f"{p.canon()}[{i}]"
                 if base is not None and base.isidentifier():
@@ -562,6 +572,14 @@ class NF:
         return self._reg(Poly.atom(f"{base.canon()}.{e.attr}", base.deps, base.gdeps if e.attr not in ("shape", "ndim", "dtype", "size") else frozenset()), "attr", [base])
 
     def _e_Subscript(self, e, sc, at, depth):
+        # x[:k][i] == x[i] and x[j:][i] == x[j + i] for constant bounds (prefix / suffix of a tuple-like value)
+        if isinstance(e.slice, ast.Constant) and isinstance(e.slice.value, int) and e.slice.value >= 0 and isinstance(e.value, ast.Subscript) and isinstance(e.value.slice, ast.Slice) \
+                and e.value.slice.step is None:
+            lo, hi = e.value.slice.lower, e.value.slice.upper
+            lo_v = 0 if lo is None else (lo.value if isinstance(lo, ast.Constant) and isinstance(lo.value, int) and lo.value >= 0 else None)
+            hi_v = None if hi is None else (hi.value if isinstance(hi, ast.Constant) and isinstance(hi.value, int) and hi.value >= 0 else -1)
+            if lo_v is not None and hi_v != -1 and (hi_v is None or lo_v + e.slice.value < hi_v):
+                return self._e_Subscript(ast.copy_location(ast.Subscript(value=e.value.value, slice=ast.Constant(value=lo_v + e.slice.value), ctx=ast.Load()), e), sc, at, depth)
         base = self.poly(e.value, sc, at, depth)
         if base.elems is not None and isinstance(e.slice, ast.Constant) and isinstance(e.slice.value, int):
             i = e.slice.value
